@@ -226,6 +226,9 @@ def _exec_stmt(conn_box: list, st: str) -> str | None:
     """returns the observable result of one statement: None (nothing), 'E', 'r…', 'm…'"""
     import snowflake.connector
     try:
+        if st == "Q":       # the session closes its connection; the others go on
+            conn_box[0].close()
+            return None
         if st == "N-":      # opened without database/schema: every statement of the scenarios uses fully qualified names
             conn_box[0] = snowflake.connector.connect()
             return None
@@ -281,8 +284,11 @@ def _run_real(job) -> dict:
             mod.threading = _ThreadingShim(sched, has_lock)
             shimmed.append(mod)
     cd, cs = job.get("flags", [True, True])
+    import shutil as _shutil
+    import tempfile as _tempfile
+    tmpdir = _tempfile.mkdtemp(prefix="c19-") if job["name"].endswith("-dbpath") else None
     try:
-        with fakesnow.patch(create_database_on_connect=cd, create_schema_on_connect=cs):
+        with fakesnow.patch(create_database_on_connect=cd, create_schema_on_connect=cs, db_path=tmpdir):
             # setup by the main thread (not scheduled)
             init = [x for x in job["init"].split(",") if x and x != "-"]
             setup = None
@@ -367,6 +373,8 @@ def _run_real(job) -> dict:
         fakesnow.FakeSnow = orig
         for mod in shimmed:
             mod.threading = threading
+        if tmpdir:
+            _shutil.rmtree(tmpdir, ignore_errors=True)
 
 
 def _forked(fn, arg, timeout: float):
@@ -611,6 +619,78 @@ def _check_txconflict(chk, spec, r) -> None:
                       case, broken="C19 no statement fails because of a race")
 
 
+def _first_connects_round(args) -> dict:
+    """the very FIRST connects of a patch() block arrive from N threads at once (released by a barrier); a designated
+    creator then makes a table, everybody inserts into it: all sessions must be talking to one account"""
+    import sys as _sys
+    import fakesnow
+    import snowflake.connector
+    nthreads, seed = args
+    errs: list[str] = []
+    slow: list[int] = []
+    old = _sys.getswitchinterval()
+    with fakesnow.patch():
+        barrier = threading.Barrier(nthreads)
+        created = threading.Event()
+        conns: dict[int, object] = {}
+
+        def w(tid: int):
+            try:
+                try:
+                    barrier.wait(timeout=100)
+                except threading.BrokenBarrierError:
+                    slow.append(tid)
+                    return
+                c = snowflake.connector.connect(database="acct", schema="s")
+                conns[tid] = c
+                cur = c.cursor()
+                if tid == 0:
+                    cur.execute("create table acct.s.visits (tid int)")
+                    created.set()
+                elif not created.wait(timeout=100):
+                    slow.append(tid)
+                    return
+                cur.execute(f"insert into acct.s.visits values ({tid})")
+            except Exception as e:  # noqa: BLE001
+                errs.append(f"session {tid}: {type(e).__name__}: {str(e)[:100]}")
+                created.set()
+
+        ts = [threading.Thread(target=w, args=(i,), daemon=True) for i in range(nthreads)]
+        _sys.setswitchinterval(1e-5)
+        try:
+            [t.start() for t in ts]
+            deadline = time.time() + 120
+            for t in ts:
+                t.join(timeout=max(0.1, deadline - time.time()))
+        finally:
+            _sys.setswitchinterval(old)
+        if slow or any(t.is_alive() for t in ts):
+            raise common.Infra(f"first-connect round (seed {seed}): threads did not finish in time")
+        seen = []
+        if not errs:
+            for tid, c in sorted(conns.items()):
+                cur = c.cursor()
+                cur.execute("select count(*) from acct.s.visits")
+                seen.append(cur.fetchall()[0][0])
+    return {"errs": errs, "seen": seen, "expect": nthreads, "seed": seed}
+
+
+def _first_connects_worker(shard):
+    _warm()
+    out = []
+    for a in shard:
+        r = _forked(_first_connects_round, a, 200.0)
+        if "timeout" in r:
+            raise common.Infra(f"first-connect round (seed {a[1]}) did not finish within 200 s")
+        if "crashed" in r:
+            out.append({"errs": [r["crashed"]], "seen": [], "expect": a[0], "seed": a[1]})
+            continue
+        if "ok" not in r:
+            raise common.Infra(f"first-connect round: {r}")
+        out.append(r["ok"])
+    return out
+
+
 def _stress_statements_round(args) -> dict:
     """several sessions (connections made beforehand, one per thread) each run many multi-row INSERTs into their OWN
     table, free-running with a very short thread switch interval, so that threads are switched inside fakesnow's pure
@@ -767,6 +847,10 @@ SCENARIOS = [
     # COMMENT ON / ALTER … SET COMMENT of one session must not leak into later statements of any session (shared AST residue)
     ("comments-then-noops", BASE + ",T1,T2", [["C1.1", "Z", "W2"], ["A2.2", "O2.5", "Z", "W2"]], [1, 2], TT),
     ("comments-cross", BASE + ",T1,T2", [["A1.3", "O1.7", "Z", "W1"], ["C2.4", "Z", "W1", "W2"]], [1, 2], TT),
+    # session lifecycle: one session closes its connection while the others on the same database keep working
+    ("close-while-others-work", BASE + ",T0", [["N1.1", "I0.5.5", "Q"], ["N1.1", "I0.1.1", "R0"]], [0], TT),
+    ("close-while-others-work-dbpath", BASE + ",T0", [["N1.1", "I0.5.5", "Q"], ["N1.1", "I0.1.1", "R0"]], [0], TT),
+    ("close-three-dbpath", BASE + ",T0", [["N1.1", "Q"], ["N1.1u", "I0.1.1", "Q"], ["N1.1", "I0.2.2", "R0"]], [0], TT),
     # sessions opened without database/schema (every connection must still get its own engine connection)
     ("sessions-without-database", BASE + ",T0:9.9", [["N-", "I0.1.1", "R0"], ["N-", "I0.2.2", "R0"]], [0], TT),
 ]
@@ -906,6 +990,19 @@ def run(chk) -> None:
                       f"{len(bad)}/{len(res)} rounds failed; first: errors={b['errs'][:3]} hung={b['hung']} rows={b['total']} "
                       f"distinct={b['distinct']} expected={b['expect']} (seed {b['seed']}; not deterministic)",
                       {"name": "stress", "args": [8, 5, b["seed"]], "nondeterministic": True}, broken="C19 free-running stress (connects + inserts)")
+    # the first connects of a patch() block race each other (free-running; only errors and wrong counts are failures)
+    fargs = [(6, chk.seed * 1000 + i) for i in range(8 if chk.tier == "quick" else 48)]
+    fres = [r for sh in common.shard_map(_first_connects_worker, common.chunks(fargs, 8), procs=8) for r in sh]
+    fbad = [r for r in fres if r["errs"] or any(n != r["expect"] for n in r["seen"])]
+    chk.count("first-connect-rounds", len(fres))
+    chk.extra["first_connect_stress"] = {"rounds": len(fres), "failed_rounds": len(fbad)}
+    if fbad:
+        b = fbad[0]
+        chk.violation(f"first connects of a patch() block from 6 threads at once, then a shared table created by session 0 and one insert per "
+                      f"session: {len(fbad)}/{len(fres)} rounds failed; first (seed {b['seed']}): errors={b['errs'][:3]}, rows each session counts "
+                      f"{b['seen']} (expected {b['expect']} everywhere: one account) (non-deterministic stress finding)",
+                      {"name": "first-connects", "args": [6, b["seed"]], "nondeterministic": True},
+                      broken="C19 free-running first-connect stress (sessions of one patch() must share one instance)")
     # overlapping transactions with the same PRIMARY KEY (deterministic hand-over after every statement)
     rnd = random.Random(chk.seed + 7)
     specs = []
@@ -946,6 +1043,13 @@ def run(chk) -> None:
 
 
 def replay(chk, case) -> None:
+    if case.get("name") == "first-connects":
+        for k in range(5):
+            r = _first_connects_worker([(case["args"][0], case["args"][1] + k)])[0]
+            if r["errs"] or any(n != r["expect"] for n in r["seen"]):
+                chk.violation(f"first-connect stress failed again (attempt {k + 1}): {r}", case, broken="C19 free-running first-connect stress")
+                break
+        return
     if case.get("name") == "txconflict":
         _check_txconflict(chk, case["spec"], _txconflict_worker([case["spec"]])[0])
         return
